@@ -277,3 +277,312 @@ def deserializeBody (S : Schema) (ty : String) (d : StructDef) : List String :=
     [if d.abstract then "return (size_ - len(buffer), size_)" else "return instance"]
 
 end SymbolVerif.Codec
+
+namespace SymbolVerif.Codec
+
+/-! ### the whole module, as text
+
+A port of the remaining text-producing code of `sdk/python/generator`: `Generator.generate_files` (header, one class per
+declaration, factories), `ClassFormatter.generate_class` / `generate_method` (layout, argument wrapping, annotations),
+`TypeFormatter.generate_methods` (method order), `StructFormatter` (class fields, constructor, comparer, sort, accessors,
+`__str__`, `to_json`), `EnumTypeFormatter`, `PodTypeFormatter`, `FactoryFormatter` and the printers. A text is a list of
+lines; the file is those lines, each terminated by a line feed. -/
+
+/-- `format.indent` on lines: a tab in front of every non-empty line -/
+def indentLines (ls : List String) : List String := ls.map fun l => if l.isEmpty then l else "\t" ++ l
+
+/-- `name_formatting.underline_name`: an underscore in front of every capital that is not the first character; lower case -/
+def underlineName (n : String) : String :=
+  let cs := n.toList
+  let out := (cs.zipIdx).flatMap fun (c, i) => if c.isUpper && i != 0 then ['_', c.toLower] else [c.toLower]
+  String.ofList out
+
+structure Method where
+  annotations : List String := []
+  name : String
+  args : List String := []
+  result : String := ""
+  body : List String
+  deriving Repr, Inhabited
+
+/-- `ClassFormatter.generate_method` -/
+def methodLines (m : Method) : List String :=
+  let first := if m.annotations.contains "@classmethod" then "cls" else "self"
+  let all := first :: m.args
+  let joined := ", ".intercalate all
+  let isVoid := (match m.annotations.getLast? with | some a => a.endsWith "setter" | none => false) || m.name == "__init__" || m.result.isEmpty
+  let res := if isVoid then "" else " -> " ++ m.result
+  let defLines :=
+    if joined.length > 100 then
+      ["def " ++ m.name ++ "("] ++ (all.dropLast.map fun a => "    " ++ a ++ ",") ++ (all.getLast?.toList.map fun a => "    " ++ a) ++ [")" ++ res ++ ":"]
+    else ["def " ++ m.name ++ "(" ++ joined ++ ")" ++ res ++ ":"]
+  m.annotations ++ defLines ++ indentLines m.body
+
+/-- `ClassFormatter.generate_class`: header, indented class fields followed by an empty line when there are any, indented
+    methods separated by empty lines -/
+def classLines (name base : String) (fields : List (List String)) (methods : List Method) : List String :=
+  let fieldLines := fields.flatMap indentLines
+  ["class " ++ name ++ base ++ ":"] ++ fieldLines ++ (if fieldLines.isEmpty then [] else [""]) ++
+    [""].intercalate (methods.map fun m => indentLines (methodLines m))
+
+def intLoad (w : Nat) (signed : Bool) : String :=
+  "int.from_bytes(buffer[:" ++ toString w ++ "], byteorder='little', signed=" ++ pyBool signed ++ ")"
+
+def payloadArgs : List String := ["payload: bytes | bytearray | memoryview"]
+
+/-- `EnumTypeFormatter` -/
+def enumClass (name : String) (w : Nat) (signed bitwise : Bool) (members : List (String × Int)) : List String :=
+  classLines name (if bitwise then "(Flag)" else "(Enum)") (members.map fun m => [m.1 ++ " = " ++ toString m.2]) [
+    { annotations := ["@property"], name := "size", result := "int", body := ["return " ++ toString w] },
+    { annotations := ["@classmethod"], name := "deserialize", args := payloadArgs, result := name,
+      body := ["buffer = memoryview(payload)", "return " ++ name ++ "(" ++ intLoad w signed ++ ")"] },
+    { name := "serialize", result := "bytes",
+      body := ["buffer = bytearray()", "buffer += " ++ toBytesCall "self.value" w signed, "return buffer"] },
+    { name := "to_json", body := ["return " ++ (if w == 8 then "str(self.value)" else "self.value")] }]
+
+/-- `PodTypeFormatter` for an integer alias -/
+def intAliasClass (name : String) (w : Nat) (signed : Bool) : List String :=
+  let var := printerName (underlineName name)
+  classLines name "(BaseValue)" [["SIZE = " ++ toString w]] [
+    { name := "__init__", args := [var ++ ": int = 0"], body := ["super().__init__(self.SIZE, " ++ var ++ ", " ++ name ++ ")"] },
+    { annotations := ["@classmethod"], name := "deserialize", args := payloadArgs, result := name,
+      body := ["buffer = memoryview(payload)", "return " ++ name ++ "(" ++ intLoad w signed ++ ")"] },
+    { name := "serialize", result := "bytes", body := ["return " ++ toBytesCall "self.value" w signed] }]
+
+/-- `PodTypeFormatter` for a fixed-size byte array alias -/
+def bytesAliasClass (name : String) (n : Nat) : List String :=
+  let var := printerName (underlineName name)
+  classLines name "(ByteArray)" [["SIZE = " ++ toString n]] [
+    { name := "__init__", args := [var ++ ": StrBytes = bytes(" ++ toString n ++ ")"],
+      body := ["super().__init__(self.SIZE, " ++ var ++ ", " ++ name ++ ")"] },
+    { annotations := ["@property"], name := "size", result := "int", body := ["return " ++ toString n] },
+    { annotations := ["@classmethod"], name := "deserialize", args := payloadArgs, result := name,
+      body := ["buffer = memoryview(payload)", "return " ++ name ++ "(ArrayHelpers.get_bytes(buffer, " ++ toString n ++ "))"] },
+    { name := "serialize", result := "bytes", body := ["return self.bytes"] }]
+
+/-! #### struct classes -/
+
+def FK.isReservedKind : FK → Bool | .reserved .. => true | _ => false
+def FK.isBoundSize : FK → Bool | .count .. | .byteSize .. | .sizeOf .. => true | _ => false
+def FK.isComputed : FK → Bool | .sizeRef .. => true | _ => false
+
+/-- `printer.get_type()` -/
+def fieldType (f : Field) : String :=
+  match f.kind with
+  | .ref ty _ => ty
+  | .barray _ => "bytes"
+  | .array elem .. => "List[" ++ elem ++ "]"
+  | _ => "int"
+
+/-- `printer.get_default_value()` -/
+def defaultValue (S : Schema) (f : Field) : String :=
+  match f.kind with
+  | .ref ty _ => match S.find ty with
+    | some (.enum _ _ _ (m :: _)) => ty ++ "." ++ m.1
+    | _ => ty ++ "()"
+  | .barray _ => "bytes()"
+  | .array .. => "[]"
+  | _ => "0"
+
+/-- `StructFormatter.field_name(field)` -/
+def selfName (f : Field) : String :=
+  if f.kind.isComputed then "self." ++ printerName f.name ++ "_computed" else "self._" ++ printerName f.name
+
+/-- `non_reserved_fields()`: not reserved, not a bound size, not computed; the first one dropped when it is called `size` -/
+def nonReservedAll (d : StructDef) : List Field :=
+  match d.fields.filter fun f => !(f.kind.isReservedKind || f.kind.isBoundSize || f.kind.isComputed) with
+  | [] => []
+  | f :: rest => if f.name == "size" then rest else f :: rest
+
+def inheritedNames (d : StructDef) : List String :=
+  if d.base.isSome then (d.fields.take d.inherited).map (·.name) else []
+
+def isInherited (d : StructDef) (f : Field) : Bool := (inheritedNames d).contains f.name
+
+def nonReservedOwn (d : StructDef) : List Field := (nonReservedAll d).filter fun f => !isInherited d f
+
+/-- `get_paired_const_field`: the first constant whose lower-cased name ends with the member name -/
+def pairedConst (d : StructDef) (f : Field) : Option (String × String × String) :=
+  d.consts.find? fun c => c.1.toLower.endsWith f.name
+
+/-- `generate_class_field` of a constant: `NAME: type = value` (`Enum.MEMBER` for constants of a named type) -/
+def constLine (S : Schema) (c : String × String × String) : String :=
+  match S.find c.2.1 with
+  | some _ => c.1 ++ ": " ++ c.2.1 ++ " = " ++ c.2.1 ++ "." ++ c.2.2
+  | none => c.1 ++ ": int = " ++ c.2.2
+
+def typeHintsBlock (S : Schema) (d : StructDef) : List String :=
+  let hints := (d.base.toList.map fun b => "**" ++ b ++ ".TYPE_HINTS") ++
+    ((typeHints S d).map fun h => "'" ++ h.1 ++ "': '" ++ h.2 ++ "'")
+  ["TYPE_HINTS = {"] ++ indentLines ((hints.dropLast.map (· ++ ",")) ++ hints.getLast?.toList) ++ ["}"]
+
+/-- the value a conditional member gets in the constructor: its default only when its condition names the default value
+    of an enum discriminant -/
+def ctorValue (S : Schema) (d : StructDef) (f : Field) : String :=
+  match f.cond with
+  | none => defaultValue S f
+  | some c =>
+    match d.fields.find? (fun g => g.name == c.field) with
+    | some cf =>
+      let isEnumRef := match cf.kind with
+        | .ref ty _ => (match S.find ty with | some (.enum ..) => true | _ => false)
+        | _ => false
+      if isEnumRef && (condOperands S d c).1 == defaultValue S cf then defaultValue S f else "None"
+    | none => "None"
+
+def ctorBody (S : Schema) (ty : String) (d : StructDef) : List String :=
+  (if d.base.isSome then ["super().__init__()"] else []) ++
+  ((nonReservedAll d).flatMap fun f =>
+    match pairedConst d f with
+    | some c => [selfName f ++ " = " ++ ty ++ "." ++ c.1]
+    | none => if isInherited d f then [] else [selfName f ++ " = " ++ ctorValue S d f]) ++
+  (((d.fields.filter fun f => f.kind.isReservedKind).filter fun f => !isInherited d f).map fun f =>
+    match f.kind with
+    | .reserved _ _ v => selfName f ++ " = " ++ toString v ++ "  # reserved field"
+    | _ => "")
+
+def comparerBody (d : StructDef) : List String :=
+  (if d.comparer.any (fun c => c.2 == some "ripemd_keccak_256") then
+    ["from ..Transforms import ripemd_keccak_256  # pylint: disable=import-outside-toplevel", ""] else []) ++
+  ["return ("] ++
+  (d.comparer.map fun c => match c.2 with
+    | none => "\tself." ++ c.1 ++ " if not isinstance(self." ++ c.1 ++ ", Enum) else self." ++ c.1 ++ ".value,"
+    | some t => "\t" ++ t ++ "(self." ++ c.1 ++ ".bytes),") ++
+  [")"]
+
+/-- `printer.sort(field_name)` -/
+def sortStatement (S : Schema) (f : Field) : Option String :=
+  match f.kind with
+  | .array _ _ _ _ (some k) => some (selfName f ++ " = sorted(" ++ selfName f ++ ", key=" ++ sortAccessor k ++ ")")
+  | .ref ty _ => match S.find ty with
+    | some (.struct _) => some (selfName f ++ ".sort()")
+    | _ => none
+  | _ => none
+
+def sortBody (S : Schema) (d : StructDef) : List String :=
+  let lines := d.fields.flatMap fun f => match sortStatement S f with
+    | some s => guarded (conditionLine S d f) s
+    | none => []
+  if lines.isEmpty then ["pass"] else lines
+
+def rstripUnderscores (s : String) : String := String.ofList (s.toList.reverse.dropWhile (· == '_')).reverse
+
+/-- `printer.to_string(field_name)`, wrapped in braces when it has none -/
+def toStringExpr (f : Field) : String :=
+  let n := selfName f
+  match f.kind with
+  | .ref .. => "{" ++ n ++ ".__str__()}"
+  | .barray _ => "{hexlify(" ++ n ++ ").decode(\"utf8\")}"
+  | .array .. => "{list(map(str, " ++ n ++ "))}"
+  | _ => "0x{" ++ n ++ ":X}"
+
+/-- `printer.to_json(field_name)` -/
+def toJsonExpr (f : Field) : String :=
+  let n := selfName f
+  match f.kind with
+  | .ref .. => n ++ ".to_json()"
+  | .barray _ => "hexlify(" ++ n ++ ").decode('utf8')"
+  | .array .. => "[e.to_json() for e in " ++ n ++ "]"
+  | .int w _ | .reserved w _ _ | .sizeF w | .count w _ _ _ | .byteSize w _ _ | .sizeOf w _ _ | .sizeRef w _ _ _ =>
+    if w == 8 then "str(" ++ n ++ ")" else n
+
+def strBody (S : Schema) (d : StructDef) : List String :=
+  ["result = '('"] ++ (if d.base.isSome then ["result += super().__str__()"] else []) ++
+  ((nonReservedOwn d).flatMap fun f =>
+    guarded (conditionLine S d f) ("result += f'" ++ rstripUnderscores (printerName f.name) ++ ": " ++ toStringExpr f ++ ", '")) ++
+  ["result += ')'", "return result"]
+
+def jsonBody (S : Schema) (d : StructDef) : List String :=
+  [if d.base.isSome then "result = {**super().to_json()}" else "result = {}"] ++
+  ((nonReservedOwn d).flatMap fun f =>
+    guarded (conditionLine S d f) ("result['" ++ rstripUnderscores (printerName f.name) ++ "'] = " ++ toJsonExpr f)) ++
+  ["return result"]
+
+def getterMethods (d : StructDef) : List Method :=
+  ((nonReservedOwn d).map fun f =>
+    ({ annotations := ["@property"], name := printerName f.name, result := fieldType f, body := ["return " ++ selfName f] } : Method)) ++
+  (((d.fields.filter fun f => f.kind.isComputed).filter fun f => !isInherited d f).map fun f =>
+    match f.kind with
+    | .sizeRef _ _ target delta =>
+      ({ annotations := ["@property"], name := printerName f.name ++ "_computed", result := "int",
+         body := ["return 0 if not self." ++ target ++ " else self." ++ target ++ ".size + " ++ toString delta] } : Method)
+    | _ => { name := "", body := [] })
+
+def setterMethods (d : StructDef) : List Method :=
+  (nonReservedOwn d).map fun f =>
+    { annotations := ["@" ++ printerName f.name ++ ".setter"], name := printerName f.name, args := ["value: " ++ fieldType f],
+      body := [selfName f ++ " = value"] }
+
+/-- `TypeFormatter.generate_methods` for a struct: the methods in the order they are written -/
+def structMethods (S : Schema) (ty : String) (d : StructDef) : List Method :=
+  let ctor := ctorBody S ty d
+  (if ctor.isEmpty then [] else [({ name := "__init__", body := ctor } : Method)]) ++
+  (if d.comparer.isEmpty then [] else [({ name := "comparer", result := "tuple", body := comparerBody d } : Method)]) ++
+  [({ name := "sort", result := "None", body := sortBody S d } : Method)] ++
+  getterMethods d ++ setterMethods d ++
+  [({ annotations := ["@property"], name := "size", result := "int", body := sizeBody S d } : Method),
+   (if d.abstract then
+      { annotations := ["@classmethod"], name := "_deserialize", args := ["buffer: memoryview", "instance"], result := "(int, int)",
+        body := deserializeBody S ty d }
+    else
+      { annotations := ["@classmethod"], name := "deserialize", args := payloadArgs, result := ty, body := deserializeBody S ty d }),
+   ({ name := "serialize", result := "bytes", body := serializeBody S d } : Method)] ++
+  (if d.abstract then [({ name := "_serialize", args := ["buffer: memoryview"], body := serializeFieldLines S d } : Method)] else []) ++
+  [({ name := "__str__", result := "str", body := strBody S d } : Method),
+   ({ name := "to_json", body := jsonBody S d } : Method)]
+
+def structClass (S : Schema) (ty : String) (d : StructDef) : List String :=
+  classLines ty (match d.base with | some b => "(" ++ b ++ ")" | none => "")
+    ((d.consts.map fun c => [constLine S c]) ++ [typeHintsBlock S d]) (structMethods S ty d)
+
+/-! #### factories -/
+
+def skipEmbedded (n : String) : String := if n.startsWith "embedded_" then (n.drop 9).toString else n
+
+/-- `FactoryFormatter` + `FactoryClassFormatter` for the abstract struct `a` -/
+def factoryClass (S : Schema) (a : String) : List String :=
+  let children := S.children a
+  let disc := match S.find a with | some (.struct d) => d.disc | _ => []
+  -- the constants initialising the discriminators, as named by the first child
+  let values : List String := match children.head? with
+    | some (_, c) => disc.filterMap fun n => (c.inits.find? (·.1 == n)).map (·.2)
+    | none => []
+  let entries := children.map fun (n, _) => "(" ++ ", ".intercalate (values.map fun v => n ++ "." ++ v) ++ "): " ++ n
+  let names := children.map fun (n, _) => "'" ++ skipEmbedded (underlineName n) ++ "': " ++ n
+  let commaJoined (ls : List String) := (ls.dropLast.map (· ++ ",")) ++ ls.getLast?.toList
+  classLines (a ++ "Factory") "" [] [
+    { annotations := ["@classmethod"], name := "deserialize", args := ["payload: bytes"], result := a,
+      body := ["parent = " ++ a ++ "()", "buffer = bytes(payload)",
+        a ++ "._deserialize(buffer, parent)  # pylint: disable=protected-access", "", "mapping = {"] ++
+        indentLines (commaJoined entries) ++
+        ["}", "discriminator = (" ++ ", ".intercalate ((if children.isEmpty then [] else disc).map fun n => "parent." ++ printerName n) ++ ")",
+         "factory_class = mapping[discriminator]", "return factory_class.deserialize(buffer)"] },
+    { annotations := ["@classmethod"], name := "create_by_name", args := ["entity_name: str"], result := a,
+      body := ["mapping = {"] ++ indentLines (commaJoined names) ++
+        ["}", "", "if entity_name not in mapping:", "\traise ValueError(f'unknown " ++ a ++ " type {entity_name}')", "",
+         "return mapping[entity_name]()"] }]
+
+/-! #### the file -/
+
+def moduleHeader : List String := [
+  "#!/usr/bin/python", "#", "# Code generated by catbuffer python generator; DO NOT EDIT.", "#",
+  "# pylint: disable=line-too-long, invalid-name, redefined-builtin",
+  "# pylint: disable=too-many-lines, too-many-instance-attributes, too-many-locals, too-many-statements, too-many-public-methods",
+  "# pylint: disable=duplicate-code, superfluous-parens", "",
+  "from __future__ import annotations", "",
+  "from binascii import hexlify", "from enum import Enum, Flag", "from typing import List, TypeVar", "",
+  "from ..ArrayHelpers import ArrayHelpers", "from ..BaseValue import BaseValue", "from ..ByteArray import ByteArray", "",
+  "# string or bytes", "StrBytes = TypeVar('StrBytes', str, bytes)", "", ""]
+
+def typeClass (S : Schema) (name : String) : TypeDef → List String
+  | .int w s => intAliasClass name w s
+  | .bytes n => bytesAliasClass name n
+  | .enum w s b ms => enumClass name w s b ms
+  | .struct d => structClass S name d
+
+/-- the lines of the generated `__init__.py`; the file is these lines, each followed by a line feed -/
+def moduleLines (S : Schema) : List String :=
+  moduleHeader ++ (S.flatMap fun e => typeClass S e.1 e.2 ++ ["", ""]) ++
+    ["", ""].intercalate ((abstractNames S).map (factoryClass S))
+
+end SymbolVerif.Codec
